@@ -238,6 +238,36 @@ def write_replay(prop_id, v):
     return path
 
 
+def isolated_replay(drv, case):
+    """Re-execute one case in a freshly forked child, so that both confirmation runs start from the same
+    process state even when the code under test keeps state between calls."""
+    import pickle
+
+    r, w = os.pipe()
+    pid = os.fork()
+    if pid == 0:
+        try:
+            os.close(r)
+            try:
+                out = ("ok", drv.replay(case))
+            except BaseException as e:  # noqa: BLE001
+                out = ("exc", f"{type(e).__name__}: {e}")
+            with os.fdopen(w, "wb") as f:
+                pickle.dump(out, f)
+        finally:
+            os._exit(0)
+    os.close(w)
+    with os.fdopen(r, "rb") as f:
+        data = f.read()
+    os.waitpid(pid, 0)
+    if not data:
+        raise RuntimeError("replay child died")
+    status, out = pickle.loads(data)
+    if status != "ok":
+        raise RuntimeError(f"replay raised {out}")
+    return out
+
+
 def load_driver(prop_id):
     import importlib
 
@@ -411,8 +441,8 @@ def run_check(prop_id, tier="quick", seed=0, jobs=None):
             labels.add(v["label"])
             picked.append(v)
     for v in picked:
-        r1 = drv.replay(v["case"])
-        r2 = drv.replay(v["case"])
+        r1 = isolated_replay(drv, v["case"])
+        r2 = isolated_replay(drv, v["case"])
         m1 = sorted(x["msg"] for x in r1)
         m2 = sorted(x["msg"] for x in r2)
         if m1 != m2:
